@@ -93,6 +93,13 @@ func ordUniverse(full bool) []ordVariant {
 			sig := stack.Signature{State: []string{"chan receive", "select"}[v&1], Locked: v&2 != 0, Stack: s}
 			out = append(out, ordVariant{Desc: fmt.Sprintf("%s %s locked=%v", desc, sig.State, sig.Locked), Sig: sig})
 		}
+		if len(st) == 1 || (len(st) == 2 && st[0] == st[1]) {
+			// the same stack cut short by the runtime (elided frames): truncation does not make a stack more relevant
+			es := s
+			es.Elided = true
+			sig := stack.Signature{State: "select", Stack: es}
+			out = append(out, ordVariant{Desc: desc + " elided select locked=false", Sig: sig})
+		}
 	}
 	return out
 }
